@@ -184,6 +184,7 @@ def r5_reporting(chk: Check):
         gs = [(src(t.ast), pol) for t, pol in ga.guards(n) if t.kind == "test" and not isinstance(t.stmt, (ast.Assert, ast.While))]
         gs = [x for x in gs if x[0] not in ("self.exitMode", "self.unfinishedJobs == 0", "self.taskOutputQueueSize == 0")]
         chk.require(gs == [("self.failedJobs", True)], chk.fkey(aw, "fails iff failedJobs"), f"FailedExperiment is raised under {gs}: exactly when some job failed", chk.loc(aw.module, n.ast))
+    failed_jobs_only_grow(chk)
     ex = tree.func("scheduler.base", "experiment.__exit__")
     ge = CFG(ex.node)
     waits = ge.call_nodes(lambda c: src(c) == "self.wait()")
@@ -201,12 +202,35 @@ def r7_done_is_truthful(chk: Check):
     c06.r2_truthful(chk)
 
 
+def failed_jobs_only_grow(chk: Check):
+    """what decides the experiment's verdict (failedJobs) is reset only when the experiment starts"""
+    tree = chk.tree
+    bad = []
+    for ff in tree.nontest_funcs():
+        if not ff.module.name.startswith("scheduler"):
+            continue
+        for t, v, s_ in attr_stores(ff.node):
+            if t.attr == "failedJobs" and not ff.key.endswith("experiment.__enter__"):
+                bad.append((ff, s_))
+        for c in fn_calls(ff.node):
+            if isinstance(c.func, ast.Attribute) and c.func.attr in ("clear", "pop", "popitem") and src(c.func.value).endswith("failedJobs"):
+                bad.append((ff, c))
+        for x in ast.walk(ff.node):
+            if isinstance(x, ast.Delete) and any("failedJobs" in src(t) for t in x.targets):
+                bad.append((ff, x))
+    for ff, x in bad:
+        chk.violation(chk.fkey(ff, "forgets failed jobs"), f"`{ff.qual}` resets / removes recorded failures (`{src(x)[:80]}`): a later wait() -- the one of __exit__ -- then reports success although jobs failed", chk.loc(ff.module, x))
+    if not bad:
+        chk.ok("scheduler:failedJobs only grows", "", "failures are recorded by aio_submit and reset only by experiment.__enter__")
+
+
 RULES = [
     ("R1", "a dependency on a job is FAIL exactly when the upstream job is in ERROR (= C04.R3)", c04.r3_status_mapping),
     ("R2", "cancellation block: FAIL and not finished => ERROR + failure_status DEPENDENCY + wake-up; FAIL on a finished job writes nothing; only fields of self are written", r2_cancellation),
     ("R3", "a cancelled job is never launched: launch needs READY (C04.R1) and ERROR is absorbing, as is DONE (C06.R1 typestate)", r3_never_launched),
     ("R4", "on every live exit of aio_submit, after the state is final, every dependent is re-checked", r4_propagation),
     ("R5", "reporting: failedJobs records exactly the jobs not DONE; wait() raises iff failedJobs; __exit__ waits iff no exception escaped", r5_reporting),
+    ("R8", "a dependency that already failed when the dependent is submitted cancels it too: every dependency is registered, counted and checked at submission (= C04.R4)", c04.r4_registration_order),
     ("R7", "a job is DONE only if its process exited with code 0 or its success marker exists (= C06.R2): a killed job is never reported as a success to its dependents or to the experiment", r7_done_is_truthful),
     ("R6", "jobs that do not depend on a failure run to completion: the experiment waits for every registered job (counter pairing, = C06.R3)", r6_others_complete),
 ]
